@@ -80,20 +80,19 @@ Proof.
 Qed.
 
 (** ** what is recognised in the stack *)
-Theorem stack_recognised_apart A B k g css cbA cbB cb acc groups : (1 <= g)%nat ->
+Lemma stack_cells A B k g css cbA cbB cb : (1 <= g)%nat ->
   cellbuffer_of_text (A ++ [10]) css = Ok cbA -> cellbuffer_of_text B css = Ok cbB ->
   cellbuffer_of_text (stacked A B k g) css = Ok cb ->
-  endorse_cells (cb_cells cb) = Ok (acc, groups) ->
   let upper := fun c => cy c <? height A in
-  let lower := fun c => negb (cy c <? height A) in
-  endorse_cells (cb_cells cbA) = Ok (filter (fsside upper) acc, filter (cside upper) groups)
-  /\ map_res (shift_ec (Z.of_nat k) (height A + Z.of_nat g)) (endorse_cells (cb_cells cbB))
-     = Ok (filter (fsside lower) acc, filter (cside lower) groups).
+  let mv := shift_cc (Z.of_nat k) (height A + Z.of_nat g) in
+  filter (fun e => upper (fst e)) (cb_cells cb) = cb_cells cbA
+  /\ filter (fun e => negb (upper (fst e))) (cb_cells cb) = map mv (cb_cells cbB)
+  /\ separated upper (cb_cells cb)
+  /\ cb_escaped cb = cb_escaped cbA ++ shift_cb_texts (Z.of_nat k) (height A + Z.of_nat g) (cb_escaped cbB).
 Proof.
-  intros G HA HB HAB E upper lower.
-  destruct (cells_of_stack A B k g css cbA cbB HA HB) as [cb' [H' [Cells _]]]. rewrite H' in HAB. inversion HAB; subst cb'; clear HAB.
-  set (mv := shift_cc (Z.of_nat k) (height A + Z.of_nat g)) in *.
-  (* rows of the cells *)
+  intros G HA HB HAB upper mv.
+  destruct (cells_of_stack A B k g css cbA cbB HA HB) as [cb' [H' [Cells Escs]]]. rewrite H' in HAB. inversion HAB; subst cb'; clear HAB.
+  fold mv in Cells.
   assert (RA : forall e, In e (cb_cells cbA) -> 0 <= cy (fst e) < height A).
   { intros e Ie. unfold cellbuffer_of_text in HA. destruct (cells_of_rows 0 (string_buffer (A ++ [10]))) as [[c1 e1]|] eqn:E1; cbn [bind] in HA; [|discriminate].
     inversion HA; subst. cbn [cb_cells] in Ie. pose proof (cells_of_rows_range _ 0 c1 e1 e E1 Ie) as R. unfold string_buffer in R. rewrite map_length in R. unfold height. lia. }
@@ -105,20 +104,57 @@ Proof.
   assert (UB : Forall (fun e => upper (fst e) = false) (map mv (cb_cells cbB))).
   { apply Forall_forall. intros e Ie. apply in_map_iff in Ie. destruct Ie as [e0 [<- I0]]. unfold upper, mv, shift_cc, shift_cell; cbn [fst cy].
     apply Z.ltb_ge. specialize (RB e0 I0). lia. }
-  assert (FA : filter (fun e => upper (fst e)) (cb_cells cb) = cb_cells cbA).
-  { rewrite Cells, filter_app, (filter_all _ true _ UA), (filter_all _ false _ UB). apply app_nil_r. }
-  assert (FB : filter (fun e => lower (fst e)) (cb_cells cb) = map mv (cb_cells cbB)).
-  { assert (LA : Forall (fun e => lower (fst e) = false) (cb_cells cbA)).
-    { eapply Forall_impl; [|exact UA]. cbn. intros e H. unfold lower. unfold upper in H. rewrite H. reflexivity. }
-    assert (LB : Forall (fun e => lower (fst e) = true) (map mv (cb_cells cbB))).
-    { eapply Forall_impl; [|exact UB]. cbn. intros e H. unfold lower. unfold upper in H. rewrite H. reflexivity. }
-    rewrite Cells, filter_app, (filter_all _ false _ LA), (filter_all _ true _ LB). reflexivity. }
-  assert (Sep : separated upper (cb_cells cb)).
-  { apply gap_row_separates. intros e Ie. rewrite Cells in Ie. apply in_app_or in Ie. destruct Ie as [Ie|Ie].
-    - specialize (RA e Ie). lia.
-    - apply in_map_iff in Ie. destruct Ie as [e0 [<- I0]]. specialize (RB e0 I0). unfold mv, shift_cc, shift_cell; cbn [fst cy]. lia. }
+  split; [|split; [|split]].
+  - rewrite Cells, filter_app, (filter_all _ true _ UA), (filter_all _ false _ UB). apply app_nil_r.
+  - assert (LA : Forall (fun e => negb (upper (fst e)) = false) (cb_cells cbA)) by (eapply Forall_impl; [|exact UA]; cbn; intros e H; rewrite H; reflexivity).
+    assert (LB : Forall (fun e => negb (upper (fst e)) = true) (map mv (cb_cells cbB))) by (eapply Forall_impl; [|exact UB]; cbn; intros e H; rewrite H; reflexivity).
+    rewrite Cells, filter_app, (filter_all _ false _ LA), (filter_all _ true _ LB). reflexivity.
+  - apply gap_row_separates. intros e Ie. rewrite Cells in Ie. apply in_app_or in Ie. destruct Ie as [Ie|Ie].
+    + specialize (RA e Ie). lia.
+    + apply in_map_iff in Ie. destruct Ie as [e0 [<- I0]]. specialize (RB e0 I0). unfold mv, shift_cc, shift_cell; cbn [fst cy]. lia.
+  - exact Escs.
+Qed.
+
+Theorem stack_recognised_apart A B k g css cbA cbB cb acc groups : (1 <= g)%nat ->
+  cellbuffer_of_text (A ++ [10]) css = Ok cbA -> cellbuffer_of_text B css = Ok cbB ->
+  cellbuffer_of_text (stacked A B k g) css = Ok cb ->
+  endorse_cells (cb_cells cb) = Ok (acc, groups) ->
+  let upper := fun c => cy c <? height A in
+  let lower := fun c => negb (cy c <? height A) in
+  endorse_cells (cb_cells cbA) = Ok (filter (fsside upper) acc, filter (cside upper) groups)
+  /\ map_res (shift_ec (Z.of_nat k) (height A + Z.of_nat g)) (endorse_cells (cb_cells cbB))
+     = Ok (filter (fsside lower) acc, filter (cside lower) groups).
+Proof.
+  intros G HA HB HAB E upper lower.
+  destruct (stack_cells A B k g css cbA cbB cb G HA HB HAB) as [FA [FB [Sep _]]]. fold upper in FA, FB, Sep.
   split.
   - rewrite <- FA. apply (endorse_cells_of_side upper); assumption.
-  - rewrite <- (endorse_cells_shift (Z.of_nat k) (height A + Z.of_nat g)). fold mv. rewrite <- FB.
+  - rewrite <- (endorse_cells_shift (Z.of_nat k) (height A + Z.of_nat g)). rewrite <- FB.
     apply (endorse_cells_of_side lower); [apply separated_flip; exact Sep|exact E].
+Qed.
+
+(** the quoted texts of a row sit on that row *)
+Lemma escape_segments_row y row : forall locs idx texts out, escape_segments y row locs idx = Ok (texts, out) -> Forall (fun e => cy (fst e) = y) texts.
+Proof.
+  induction locs as [|[s e] more IH]; intros idx texts out H; cbn [escape_segments] in H.
+  - destruct (oslice (slice_from row idx)); cbn [bind] in H; inversion H; subst. constructor.
+  - destruct (oslice (slice row (S s) e)) as [seg|]; cbn [bind] in H; [|discriminate].
+    destruct (oslice (slice row idx s)) as [before|]; cbn [bind] in H; [|discriminate].
+    destruct (escape_segments y row more (S e)) as [[t0 tl]|] eqn:E; cbn [bind] in H; [|discriminate].
+    inversion H; subst. constructor; [reflexivity|]. eapply IH; eauto.
+Qed.
+Lemma escape_line_row y row texts out : escape_line y row = Ok (texts, out) -> Forall (fun e => cy (fst e) = y) texts.
+Proof.
+  unfold escape_line. destruct (line_parse row) as [locs|]; cbn [bind]; [|discriminate].
+  destruct locs as [|l ls]; [intros H; inversion H; subst; constructor|]. apply escape_segments_row.
+Qed.
+Lemma cells_of_rows_esc_range rows : forall y cells escs e, cells_of_rows y rows = Ok (cells, escs) -> In e escs ->
+  y <= cy (fst e) < y + Z.of_nat (length rows).
+Proof.
+  induction rows as [|row more IH]; intros y cells escs e H Ie; cbn [cells_of_rows] in H; [inversion H; subst; destruct Ie|].
+  destruct (escape_line y row) as [[esc un]|] eqn:EL; cbn [bind] in H; [|discriminate].
+  destruct (cells_of_rows (y + 1) more) as [[cs es]|] eqn:E; cbn [bind] in H; [|discriminate]. inversion H; subst; clear H.
+  cbn [length]. apply in_app_or in Ie. destruct Ie as [Ie|Ie].
+  - pose proof (escape_line_row _ _ _ _ EL) as F. rewrite Forall_forall in F. specialize (F e Ie). lia.
+  - specialize (IH (y + 1) cs es e E Ie). lia.
 Qed.
